@@ -314,6 +314,14 @@ Call(e) ==
                           \cup (IF Len(got) = 1 /\ Len(want) = 1 /\ got[1].op # want[1].op THEN {"C05"} ELSE {})
                           \cup (IF Len(got) = 1 /\ Len(want) = 1 /\ got[1].rev # want[1].rev THEN {"C17"} ELSE {}),
                         e, <<"live", c2, Class(pre)>>, BriefEvs(want), BriefEvs(got))})
+        \* ---- the bucket-level feed over all collections delivers the same events, tagged with the right collection (C08, C11)
+        mliveOf(c2) == IF Len(e.mlive) = 0 THEN liveWant(c2)
+                       ELSE EvsOf(e.mlive[CHOOSE i \in 1..Len(e.mlive) : e.mlive[i].c = c2].evs)
+        fMlive ==
+            IF e.skiplive THEN 0 ELSE
+            Cardinality({c2 \in Colls : mliveOf(c2) # liveWant(c2)
+                /\ Fail((IF c2 = c THEN {"C08"} ELSE {"C08", "C11"}), e, <<"multi-collection-feed", c2, Class(pre)>>,
+                        BriefEvs(liveWant(c2)), BriefEvs(mliveOf(c2)))})
         \* ---- backfill: a faithful snapshot, equal to what live events say (C09)
         fDump ==
             IF e.skiplive THEN 0 ELSE
@@ -361,7 +369,7 @@ Call(e) ==
     /\ dumps' = nd
     /\ clock' = IF mut /\ regular /\ ~isPurge /\ postObs.cas > clock THEN postObs.cas ELSE clock
     /\ start' = start
-    /\ nfail' = nfail + fStep + fRev + fFresh + fReaders + fOthers + fLive + fDump + fDump2 + (IF isPurge THEN 0 ELSE fAux + fFresh2)
+    /\ nfail' = nfail + fStep + fRev + fFresh + fReaders + fOthers + fLive + fMlive + fDump + fDump2 + (IF isPurge THEN 0 ELSE fAux + fFresh2)
     /\ evlog' = IF mut /\ ~isPurge THEN [evlog EXCEPT ![c] = Append(@, <<e.i, EventOf(k, post, CollId(c))>>)] ELSE evlog
     /\ verlog' = [c2 \in Colls |->
                     LET ks == {k2 \in Keys : newDocs[c2][k2] # docs[c2][k2]} IN
